@@ -415,6 +415,19 @@ func runCase(c *kit.Case) {
 			// overlap would manufacture late reports the real system cannot have.
 			clock.Advance(adv)
 			trace = append(trace, opRec{Op: "advance", Adv: adv.String(), Now: clock.Now().Sub(t0).String()})
+			// "Quiet period": when the model says nothing became due, the deadliner has nothing to do and
+			// is NOT probed — the next registration then meets it exactly as time left it (a deadliner
+			// that remembers an older "now" from its last event would accept a late registration).
+			dueNow := 0
+			for d := range m.pending {
+				if !m.deadline[d].After(clock.Now()) {
+					dueNow++
+				}
+			}
+			if dueNow == 0 && rng.Intn(4) != 0 {
+				r.Count("advances_without_probe(quiet period)", 1)
+				continue
+			}
 			if !settle() {
 				break
 			}
